@@ -6,7 +6,7 @@ EXTENDS Derive, Json
 Row(c) == [kind |-> "tuple", lv |-> c.lv, tr |-> c.tr, pc |-> c.pc, pid |-> c.pid, sr |-> c.sr, ov |-> c.ov,
            applicable |-> Applicable(c), accepts |-> Accepts(c),
            draws |-> ClientDraws(c), sdraws |-> StationDraws(c),
-           cport |-> ClientPort(c), sport |-> StationPort(c),
+           cport |-> ClientPort(c), sport |-> StationPort(c), oport |-> ClientOwnPort(c),
            effrand |-> EffRand(c), effpid |-> EffPid(c), effpresent |-> EffPresent(c),
            salt |-> Salt, ovport |-> OverridePort]
 Emit == PrintT(ToJson(Row(t)))
